@@ -337,6 +337,49 @@ class ChunkIO(RuleBasedStateMachine):
         if (si, cc) in self.reopened_keys:
             self.flags.add("read_after_reopen")
 
+    @rule(seed=st.integers(0, 10 ** 6))
+    @logged
+    def use_another_dataset(self, seed):
+        """A second dataset with the SAME scale keys but another data type,
+        encoding, block and chunk size is created, written and read through
+        its own handle, which stays alive: the first dataset's handle must
+        not be affected (and the second one must round-trip too)."""
+        rng = np.random.default_rng(seed)
+        others = [d for d in ("uint8", "uint16", "uint32", "uint64",
+                              "float32") if d != self.info["data_type"]]
+        dt = others[int(rng.integers(len(others)))]
+        C = 1 + int(rng.integers(2))
+        scales = []
+        for sc in self.info["scales"]:
+            cs = [int(rng.integers(1, 5)) for _ in range(3)]
+            size = [int(rng.integers(1, 9)) for _ in range(3)]
+            enc = "compressed_segmentation" if dt in ("uint32", "uint64") \
+                and rng.integers(2) else "raw"
+            scales.append(ds.make_scale(sc["key"], size, cs, enc, block=[
+                int(rng.integers(1, 5)) for _ in range(3)]))
+        info2 = ds.make_info(dt, C, scales)
+        d2 = os.path.join(self.root, "other%d" % len(getattr(self, "others",
+                                                           [])))
+        pio2 = ds.new_dataset(info2, {"type": "file", "flat": bool(
+            rng.integers(2)), "gzip": bool(rng.integers(2))}, d2)
+        self.others = getattr(self, "others", []) + [pio2]
+        for sc in scales:
+            cc = ds.chunk_coords_list(sc["size"], sc["chunk_sizes"][0])[-1]
+            shape = (C, cc[5] - cc[4], cc[3] - cc[2], cc[1] - cc[0])
+            arr = rng.integers(0, 200, size=shape).astype(dt)
+            try:
+                pio2.write_chunk(arr.copy(), sc["key"], cc)
+                got = pio2.read_chunk(sc["key"], cc)
+            except Exception as exc:
+                self.fail("second dataset (same keys, %s): chunk %s of %s "
+                          "cannot be written / read: %s %s" % (
+                              dt, cc, sc["key"], type(exc).__name__, exc))
+            if got.dtype != arr.dtype or got.shape != arr.shape or \
+                    not np.array_equal(got, arr):
+                self.fail("second dataset (same keys, %s): chunk %s of %s "
+                          "does not round-trip" % (dt, cc, sc["key"]))
+        self.flags.add("two_live_datasets")
+
     @rule()
     @logged
     def close_scale(self):
